@@ -3,9 +3,18 @@
    reb_simulation_save_to_file (tail_corrupt) is what decides whether that position is used, and it can be
    spoofed by payload bytes (restart_spoof_refuted). *)
 From Coq Require Import List NArith Bool Arith Lia.
-From RV Require Import C06.Model C06.Index C06.Run C07.Crash C07.Prefix.
+From RV Require Import C06.Model C06.Index C07.Crash C07.Prefix.
+
 Import ListNotations.
 Open Scope N_scope.
+
+(* byte-list equality (memcmp) used as the payload comparison of the witness below *)
+Fixpoint leqb (a b : list N) : bool :=
+  match a, b with
+  | [], [] => true
+  | x :: a', y :: b' => (x =? y)%N && leqb a' b'
+  | _, _ => false
+  end.
 
 Section R.
 Variable c : cfg.
